@@ -132,6 +132,19 @@ def main():
                     return dict(reproduced=True, call='run %d of an ensemble on one Model (A -> delayed B, no delay support requested, %r)' % (run, mode),
                                 observed=dict(row_sums=sorted(set(res.sum(axis=1).tolist())), stoichiometry=[M.py_get_update_array().tolist(), M.py_get_delay_update_array().tolist()]),
                                 expected=dict(row_sums=[float(A0)], stoichiometry=[U0.tolist(), D0.tolist()]))
+    # 7. many firings of one delayed reaction falling into the same queue slot (fast reaction, coarse grid), in the delay and the delay+volume
+    #    simulator: once A is exhausted and the queue has drained, every firing has been delivered (B == A0): the final state is on the lattice
+    for it in range(SPEC.get('rounds_burst', 4)):
+        A0 = rng.randint(40, 120)
+        M = Model(species=['A', 'B'], reactions=[(['A'], [], 'massaction', {'k': rng.uniform(15, 30)}, 'fixed', [], ['B'], {'delay': 0.5})], initial_condition_dict={'A': A0, 'B': 0})
+        for mode in (dict(delay=True), dict(delay=True, volume=1.0), dict(delay=True, safe=True), dict(delay=True, volume=1.0, safe=True)):
+            py_seed_random(rng.randint(1, 10 ** 6))
+            res = py_simulate_model(T, Model=M, stochastic=True, return_dataframe=False, **mode).py_get_result()
+            n += 1
+            idx = M.get_species2index()
+            if res[-1, idx['A']] == 0 and res[-1, idx['B']] != A0:
+                return dict(reproduced=True, call='A -> (after 0.5) B at a high rate from A=%d, %r' % (A0, mode), observed=dict(final_A=float(res[-1, idx['A']]), final_B=float(res[-1, idx['B']])),
+                            expected='B == %d at the end (every firing delivered exactly once)' % A0)
     return dict(reproduced=False, evaluations=n)
 
 
